@@ -63,6 +63,7 @@ type callM struct {
 	returned bool
 	placed   bool
 	bindDone bool // its completion callback (a BIND's) is running
+	exD      *expect // degraded serial run: the stand-in clause only
 	ex       *expect
 }
 
@@ -223,12 +224,15 @@ func (m *Model) v(prop, rule, facts, msg string, op int) {
 	if m.track && !(m.degraded && (!burst && prop == "C04" && (rule == "missing-publication" || rule == "inert-report-had-effect") ||
 		prop == "C04" && rule == "published-state-mismatch" ||
 		!burst && prop == "C20" && (rule == "replacement-stale-addrs" || rule == "new-conn-stale-addrs") ||
-		prop == "C03" && rule == "growth-while-pending")) {
+		prop == "C03" && rule == "growth-while-pending" ||
+		!burst && prop == "C08" && rule == "stand-in-not-reused")) {
 		// degraded serial runs (a live connection was shut down under the pool):
 		// C04 quantifies over "shutdowns in any order", its callback-level clauses
 		// stay judged; so do C20's address clauses (a connection that joins the pool
 		// holds the latest resolved list, whatever happened to the one it replaces);
-		// nothing else does
+		// C08's "the same stand-in is reused while it stays READY and the home stays
+		// not READY" is stated over observed states (a home that was shut down is
+		// not READY for good); nothing else does
 		return
 	}
 	sig := prop + "|" + rule
@@ -427,16 +431,20 @@ func (m *Model) stateHash() {
 		mix(uint64(c.k[0]))
 		mix(uint64(c.keys) + 11)
 	}
-	ks := make([]string, 0, len(m.keys))
+	// the key table enters as a commutative sum of per-entry hashes (no sorting:
+	// plans hold thousands of keys and this runs after every operation)
+	var ksum uint64
 	for k, h2 := range m.keys {
-		ks = append(ks, fmt.Sprintf("%s=%d", k, h2))
-	}
-	sort.Strings(ks)
-	for _, k := range ks {
+		e := uint64(14695981039346656037)
 		for i := 0; i < len(k); i++ {
-			mix(uint64(k[i]))
+			e ^= uint64(k[i])
+			e *= 1099511628211
 		}
+		e ^= uint64(h2) + 0x9e3779b97f4a7c15
+		e *= 1099511628211
+		ksum += e
 	}
+	mix(ksum)
 	mix(uint64(len(m.fb)) + 13)
 	if len(m.pubs) > 0 {
 		mix(uint64(m.pubs[len(m.pubs)-1].state) + 17)
@@ -866,6 +874,16 @@ func (m *Model) pickInvoke(ev Event) {
 	}
 	if m.track {
 		m.trackKeyedInvoke(c, cm)
+		if m.degraded && !(m.s != nil && m.s.plan.Concurrent && m.s.conc) {
+			// degraded serial run: of the placement clauses only C08's "the same
+			// stand-in is reused while it stays READY and the home stays not READY"
+			// remains (it is stated over observed states; a home that was shut down
+			// is not READY for good). Which channel becomes a stand-in is recorded,
+			// not judged.
+			if ex := m.expectPick(c, cm); ex.prop == "C08" && (ex.rule == "stand-in-not-reused" || ex.standIn != "") {
+				cm.exD = &ex
+			}
+		}
 		return
 	}
 	// The expectation is computed against the state the pick finds, before its
@@ -1050,6 +1068,12 @@ func (m *Model) pickReturn(ev Event) {
 		return
 	}
 	if cm.ex == nil || m.track {
+		if ex := cm.exD; ex != nil && ex.rule == "stand-in-not-reused" && ex.kind == "placed" && (res.Kind != ResPlaced || !ex.allowed[placedCh]) {
+			m.probe("degraded_standin_reuse_judged")
+			m.v("C08", "stand-in-not-reused", ex.facts, fmt.Sprintf("call %d %s keys=%v on the latest picker: result %s (channel %d); want channel %v: %s", c.ID, c.MethodName, c.ReqKeys, res, placedCh, keysOf(ex.allowed), ex.why), ev.Op)
+		} else if ex != nil && ex.rule == "stand-in-not-reused" {
+			m.probe("degraded_standin_reuse_judged")
+		}
 		// structural bookkeeping only
 		if m.track && cm.rr {
 			m.rrBurst = append(m.rrBurst, rrPick{call: c.ID, inv: cm.invSeq, ret: ev.Seq, ch: placedCh})
@@ -1060,6 +1084,14 @@ func (m *Model) pickReturn(ev Event) {
 			m.chans[placedCh].inflight++
 			// (an UNBIND for the key that became visible while this pick ran may have
 			// completed before it looked the key up)
+			if ex := cm.exD; ex != nil && ex.standIn != "" && m.chans[placedCh].state == connectivity.Ready && !m.chans[placedCh].gone {
+				if _, ok := m.fb[ex.standIn]; !ok {
+					m.fb[ex.standIn] = placedCh
+					if len(m.fb) == 4097 {
+						m.probe("more_than_4096_keys_on_stand_ins")
+					}
+				}
+			}
 			if m.track && cm.cKey != "" && cm.cSeq == m.coreSeq && m.allReady() && !m.cDropped[cm.cKey] {
 				if h, ok := m.cHome[cm.cKey]; ok && h != placedCh {
 					m.vAlways("C01", "bound-key-moved-without-unbind", "concurrent", fmt.Sprintf("call %d %s for key %q was placed on channel %d, an earlier call for the same key (after its BIND had completed, no UNBIND ever started, all channels READY) on channel %d", c.ID, c.MethodName, cm.cKey, placedCh, h), ev.Op)
@@ -1161,6 +1193,9 @@ func (m *Model) pickReturn(ev Event) {
 		if ex.standIn != "" && m.chans[placedCh].state == connectivity.Ready {
 			if _, ok := m.fb[ex.standIn]; !ok {
 				m.fb[ex.standIn] = placedCh
+				if len(m.fb) == 4097 {
+					m.probe("more_than_4096_keys_on_stand_ins")
+				}
 			}
 		}
 	}
